@@ -11,7 +11,7 @@ import SophiaModel.Model.Rdfc10Spec
 import SophiaModel.Model.Rdfc10Run
 
 namespace SophiaProofs.C06
-open SophiaModel SophiaModel.Rdfc10 SophiaProofs.Rdfc10L
+open SophiaModel SophiaModel.Rdfc10 SophiaProofs.Rdfc10L SophiaProofs.SpecL
 
 /-- **Unsupported ⇔ rejected predicate ∨ quoted triple ∨ variable**, for every hash and all limits:
 `relabel_with` (hence `normalize_with`) answers `Unsupported` exactly on datasets with a rejected
@@ -86,7 +86,13 @@ def cycle3 : List Quad :=
 example : (relabelWith Sha2.sha256Hex (fun d _ => d > 0) 6 cycle3).toBool = false := by native_decide
 example : (relabelWith Sha2.sha256Hex (fun _ _ => false) 6 cycle3).toBool = true := by native_decide
 
-/-! ### the implementation's `smaller_path` is not the Recommendation's skip rule -/
+/-! ### `smaller_path` and the Recommendation's skip rule
+
+History: the shipped `smaller_path` compared lengths first; that diverged from steps 5.4.4.3 /
+5.4.5.5 on the 24-quad dataset below (finding C06-smaller-path-length-first, repaired in /repo by
+33fee4b).  The model follows the source through the regenerated flag
+`Gen.smallerPathLengthFirst`; every statement here is conditional on the value of that flag, so the
+file checks under either body and a regression flips which half is non-vacuous. -/
 
 /-- the 24-quad dataset of DESIGN.md §7: two disjoint copies (label prefixes k, l) of the chain
 a0 -x:p0-> … -> a8 whose last node links x in the default graph and in <x:g0>, y once, and m links y in <x:g0> -/
@@ -100,26 +106,84 @@ def witnessCopy (pre : Char) : List Quad :=
 
 def witness : List Quad := witnessCopy 'k' ++ witnessCopy 'l'
 
-/-- `normalize` (SHA-256, default depth factor 1.0 and permutation limit 6, exactly as the driver
-runs it) vs. the transcription of the Recommendation -/
-def witnessDiffers : Bool :=
-  match normalizeWith Sha2.sha256Hex (Rdfc10Run.tooDeepF32 (Float32.ofBits 0x3f800000)) 6 witness,
-        Rdfc10Spec.canonicalNQuads Sha2.sha256Hex witness with
+/-- `normalize` exactly as the driver runs it: SHA-256, depth factor 1.0 (f32), permutation limit 6 -/
+def normalizeDefault (D : List Quad) : Except Err Str :=
+  normalizeWith Sha2.sha256Hex (Rdfc10Run.tooDeepF32 (Float32.ofBits 0x3f800000)) 6 D
+
+/-- both models succeed and (dis)agree -/
+def modelsDiffer (D : List Quad) : Bool :=
+  match normalizeDefault D, Rdfc10Spec.canonicalNQuads Sha2.sha256Hex D with
   | .ok a, some b => a != b
   | _, _ => false
 
-/-- **C06 is violated** by the shipped `smaller_path` (hypothesis `hcode`: the flag regenerated from
-rdfc10.rs says the code compares lengths first; under the repaired body the statement is vacuous
-and the differential no longer reports the finding): on the witness both algorithms succeed and their canonical N-Quads differ
-(the implementation calls the doubly linked node `c14n9`, the Recommendation `c14n10`).
-Evaluated natively (24 quads of SHA-256 are beyond kernel reduction). -/
+def modelsAgree (D : List Quad) : Bool :=
+  match normalizeDefault D, Rdfc10Spec.canonicalNQuads Sha2.sha256Hex D with
+  | .ok a, some b => a == b
+  | _, _ => false
+
+/-- **the rule itself**: with the repaired body (`path1.len() <= path2.len() && path1 < path2`) the
+test the implementation applies at 5.4.4 / 5.4.5 (`!chosen_path.is_empty() && smaller_path(..)`) IS
+the skip rule of the Recommendation, for all paths (kernel-checked) -/
+theorem skip_rule_as_specified (hcode : Gen.smallerPathLengthFirst = false) (chosen path : Str) :
+    (!chosen.isEmpty && smallerPath chosen path) = Rdfc10Spec.skipRule Rdfc10Spec.Deviations.none chosen path := by
+  have hlt : strLt chosen path = Rdfc10Spec.cpLess chosen path := by
+    unfold strLt
+    cases h : Rdfc10Spec.cpLess chosen path with
+    | true => rw [(cpLess_iff chosen path).mp h]; rfl
+    | false =>
+      cases hc : cmpStr chosen path with
+      | lt => rw [(cpLess_iff chosen path).mpr hc] at h; cases h
+      | eq => rfl
+      | gt => rfl
+  unfold smallerPath Rdfc10Spec.skipRule
+  simp only [hcode, Rdfc10Spec.Deviations.none, Bool.false_eq_true, if_false, hlt]
+  cases chosen.isEmpty <;> simp [Bool.and_assoc]
+
+/-- **regression test for the repair** (native evaluation, real SHA-256): under the repaired rule the
+dataset that used to diverge is canonicalised to exactly the bytes the Recommendation prescribes -/
+theorem C06_witness_agrees (hcode : Gen.smallerPathLengthFirst = false) :
+    ∃ a, normalizeDefault witness = .ok a ∧ Rdfc10Spec.canonicalNQuads Sha2.sha256Hex witness = some a := by
+  have h0 : (modelsAgree witness || Gen.smallerPathLengthFirst) = true := by native_decide
+  have h : modelsAgree witness = true := by simpa [hcode] using h0
+  unfold modelsAgree at h
+  cases h1 : normalizeDefault witness with
+  | error e => rw [h1] at h; cases h
+  | ok a =>
+    cases h2 : Rdfc10Spec.canonicalNQuads Sha2.sha256Hex witness with
+    | none => rw [h1, h2] at h; cases h
+    | some b =>
+      rw [h1, h2] at h
+      have : a = b := by simpa using h
+      exact ⟨a, rfl, by rw [this]⟩
+
+/-- the family around the witness (chain lengths 8–10, two copies): all agree under the repaired rule -/
+def witnessFamily : List (List Quad) :=
+  [8, 9, 10].map fun len =>
+    ['k', 'l'].flatMap fun pre =>
+      let b (s : String) : Term := .bnode (pre :: s.toList)
+      ((List.range (len - 1)).map fun i =>
+        (⟨b ("a" ++ toString i), .iri "x:p0".toList, b ("a" ++ toString (i + 1)), none⟩ : Quad)) ++
+      [⟨b ("a" ++ toString (len - 1)), .iri "x:q0".toList, b "x", none⟩,
+       ⟨b ("a" ++ toString (len - 1)), .iri "x:q0".toList, b "x", some (.iri "x:g0".toList)⟩,
+       ⟨b ("a" ++ toString (len - 1)), .iri "x:q0".toList, b "y", none⟩,
+       ⟨b "m", .iri "x:q0".toList, b "y", some (.iri "x:g0".toList)⟩]
+
+theorem C06_family_agrees (hcode : Gen.smallerPathLengthFirst = false) :
+    ∀ D ∈ witnessFamily, modelsAgree D = true := by
+  have h0 : (witnessFamily.all modelsAgree || Gen.smallerPathLengthFirst) = true := by native_decide
+  have h : witnessFamily.all modelsAgree = true := by simpa [hcode] using h0
+  exact fun D hD => List.all_eq_true.mp h D hD
+
+/-- **guard against the regression**: were `smaller_path` to compare lengths first again (flag
+`true`), both models still succeed on the witness and their canonical N-Quads differ (the
+implementation then calls the doubly linked node `c14n9`, the Recommendation `c14n10`) -/
 theorem C06_witness (hcode : Gen.smallerPathLengthFirst = true) :
-    ∃ a b, normalizeWith Sha2.sha256Hex (Rdfc10Run.tooDeepF32 (Float32.ofBits 0x3f800000)) 6 witness = .ok a ∧
+    ∃ a b, normalizeDefault witness = .ok a ∧
       Rdfc10Spec.canonicalNQuads Sha2.sha256Hex witness = some b ∧ a ≠ b := by
-  have h0 : (witnessDiffers || !Gen.smallerPathLengthFirst) = true := by native_decide
-  have h : witnessDiffers = true := by simpa [hcode] using h0
-  unfold witnessDiffers at h
-  cases h1 : normalizeWith Sha2.sha256Hex (Rdfc10Run.tooDeepF32 (Float32.ofBits 0x3f800000)) 6 witness with
+  have h0 : (modelsDiffer witness || !Gen.smallerPathLengthFirst) = true := by native_decide
+  have h : modelsDiffer witness = true := by simpa [hcode] using h0
+  unfold modelsDiffer at h
+  cases h1 : normalizeDefault witness with
   | error e => rw [h1] at h; cases h
   | ok a =>
     cases h2 : Rdfc10Spec.canonicalNQuads Sha2.sha256Hex witness with
@@ -128,19 +192,23 @@ theorem C06_witness (hcode : Gen.smallerPathLengthFirst = true) :
       rw [h1, h2] at h
       exact ⟨a, b, rfl, rfl, by simpa using h⟩
 
-/-- … and the divergence is exactly the skip rule: giving the transcription the implementation's
-`smaller_path` (and nothing else) reproduces the implementation's output on the witness -/
+/-- … and that divergence is exactly the skip rule: the transcription given the length-first rule
+(`Deviations.lengthOnlySkip`, nothing else) reproduces the length-first implementation model -/
 theorem C06_witness_attributed :
     Gen.smallerPathLengthFirst = true →
-    (normalizeWith Sha2.sha256Hex (Rdfc10Run.tooDeepF32 (Float32.ofBits 0x3f800000)) 6 witness).toOption =
+    (normalizeDefault witness).toOption =
       Rdfc10Spec.canonicalNQuadsWith ⟨false, true⟩ Sha2.sha256Hex witness := by
   have h0 : (!Gen.smallerPathLengthFirst ||
-      decide ((normalizeWith Sha2.sha256Hex (Rdfc10Run.tooDeepF32 (Float32.ofBits 0x3f800000)) 6 witness).toOption =
+      decide ((normalizeDefault witness).toOption =
         Rdfc10Spec.canonicalNQuadsWith ⟨false, true⟩ Sha2.sha256Hex witness)) = true := by native_decide
   intro hcode
   simpa [hcode] using h0
 
-/-- the full statement of C06 for the model (NOT a theorem: refuted by `C06_witness`) -/
+/-- the full statement of C06 for the model.  Status: for the length-first `smaller_path` it is
+refuted (`not_implEqSpec`); for the repaired code it is OPEN — proved on the fragment of
+`impl_eq_spec_partial`, on the rule level by `skip_rule_as_specified`, tested differentially
+elsewhere (missing for a proof: relating Heap's permutation order and the per-occurrence filing of
+step 2.1 to the transcription's, up to automorphism) -/
 def ImplEqSpec (H : Str → Str) : Prop :=
   ∀ (td : Nat → Nat → Bool) (pl : Nat) (D : List Quad) (a : Str),
     normalizeWith H td pl D = .ok a → Rdfc10Spec.canonicalNQuads H D = some a
@@ -151,11 +219,6 @@ theorem not_implEqSpec (hcode : Gen.smallerPathLengthFirst = true) : ¬ ImplEqSp
   rw [h _ _ witness a ha] at hb
   injection hb with hb
   exact hne hb
-
-end SophiaProofs.C06
-
-namespace SophiaProofs.C06
-open SophiaModel
 
 /-! ### the escape table regenerated from `_cnq.rs` is the canonical N-Quads rule -/
 
